@@ -5,6 +5,8 @@ import (
 	"encoding/base64"
 	"encoding/binary"
 	"fmt"
+	"net/http"
+	"net/http/httptest"
 	"strings"
 
 	f_note "github.com/transparency-dev/formats/note"
@@ -267,6 +269,41 @@ func c04Monitor(run *ev.Run, logical bool) func(*wh.Step) {
 		run.Add("http_reads_compared", 1)
 		if herr != nil || string(hgot) != string(s.Out.Bytes) {
 			run.Report(sig("http-read-differs"), fmt.Sprintf("a latest-checkpoint read over the HTTP endpoint directly after accepted %q returned different bytes (err=%v, %d bytes for %d)", s.Req.Label, herr, len(hgot), len(s.Out.Bytes)), s.Replay())
+		}
+		// ... and a reader that REVALIDATES (a caching proxy, a polling monitor):
+		// it keeps the validators the endpoint handed out with this read, the
+		// log's checkpoint is then submitted once more (same size: accepted,
+		// freshly cosigned), and the reader asks again replaying them; a 304
+		// means 'what you hold is current'. (The environment is discarded after
+		// this step, the extra submission is not part of the explored history.)
+		if sh := s.Req.Meta.Shape; s.Req.Meta.Size > 0 && (sh == "plain" || sh == "ext") {
+			get := func(etag, lastMod string) *httptest.ResponseRecorder {
+				req := httptest.NewRequest(http.MethodGet, "http://witness.test/witness/v0/logs/"+id+"/checkpoint", nil)
+				if etag != "" {
+					req.Header.Set("If-None-Match", etag)
+				}
+				if lastMod != "" {
+					req.Header.Set("If-Modified-Since", lastMod)
+				}
+				rec := httptest.NewRecorder()
+				s.Env.X["router"].(http.Handler).ServeHTTP(rec, req)
+				return rec
+			}
+			r1 := get("", "")
+			again := s.Env.Do(wh.Req{LogID: id, Old: s.Req.Meta.Size, CP: s.Req.CP, Proof: [][]byte{}, Meta: s.Req.Meta, Label: "the same checkpoint once more"})
+			if again.Class == wh.OK {
+				etag, lastMod := r1.Header().Get("ETag"), r1.Header().Get("Last-Modified")
+				r2 := get(etag, lastMod)
+				eff := r2.Body.Bytes()
+				if r2.Code == http.StatusNotModified {
+					eff = r1.Body.Bytes()
+					run.Add("revalidating_reads_answered_304", 1)
+				}
+				run.Add("revalidating_reads", 1)
+				if (r2.Code != 200 && r2.Code != http.StatusNotModified) || string(eff) != string(again.Bytes) {
+					run.Report(sig(fmt.Sprintf("revalidated-read-differs status=%d", r2.Code)), fmt.Sprintf("after accepted %q a reader fetched the checkpoint, the same checkpoint was accepted once more (fresh cosignature), and the reader revalidated with the validators it had been given (ETag %q, Last-Modified %q): answered %d, so it holds bytes that are not what the last update returned", s.Req.Label, etag, lastMod, r2.Code), s.Replay())
+				}
+			}
 		}
 		if string(s.Out.Bytes) != s.After.ByID[id] {
 			run.Report(sig("stored-differs"), fmt.Sprintf("accepted %q: stored bytes differ from returned bytes", s.Req.Label), s.Replay())
